@@ -137,8 +137,21 @@ def real_init(sh, init):
     return init
 
 
+SIG_CLASS = [None]       # None: wiring.Signature itself; else a user-defined subclass that keeps the default __eq__
+
+
+def user_signature_class():
+    from amaranth.lib.wiring import Signature
+
+    class UserSignature(Signature):
+        """what the documentation's examples do: a named signature class without an __eq__ of its own"""
+    return UserSignature
+
+
 def build_sig(ir):
-    from amaranth.lib.wiring import Signature, In, Out
+    from amaranth.lib.wiring import In, Out
+    from amaranth.lib import wiring
+    Signature = SIG_CLASS[0] or wiring.Signature
     mem = {}
     for name, flow, dims, kind, payload in ir["members"]:
         F = In if flow == "In" else Out
@@ -207,6 +220,13 @@ def check_structure(ir, out):
     reasons = []
     if not S.is_compliant(obj, reasons=reasons) or not S.is_compliant(obj):
         raise V("created-interface-not-compliant", reasons=reasons[:3])
+    if ir["members"]:
+        # flipping reverses every member, so a signature with members differs from its flip - also for a user-defined
+        # signature class - and an interface of the flipped signature does not comply with the original
+        if S == F or F == S or not (S != F):
+            raise V("signature-equals-its-own-flip", user_signature_class=SIG_CLASS[0] is not None)
+        if S.is_compliant(wiring.flipped(obj)) or F.is_compliant(obj):
+            raise V("interface-of-the-flipped-signature-reported-compliant", user_signature_class=SIG_CLASS[0] is not None)
     for label, sig, o, flipped_ in (("plain", S, obj, False), ("flipped-signature", F, F.create(path=("o",)), True),
                                     ("flipped-interface", F, wiring.flipped(obj), True)):
         exp = model_leaves(ir, flipped=flipped_)
@@ -395,9 +415,31 @@ def check_corruptions(ir, rng, out):
     base = list(S.flatten(S.create(path=("p",))))
     if not base:
         return
-    kinds = ["missing", "width", "init", "two-outputs"]
+    kinds = ["missing", "width", "init", "two-outputs", "flipped-subinterface"]
     for kind in kinds:
         a, b = S.create(path=("p",)), S.flip().create(path=("q",))
+        if kind == "flipped-subinterface":
+            # a sub-interface replaced by its flipped twin: every leaf inside it now has the wrong direction
+            cand = [m for m in ir["members"] if m[3] != "port" and not m[2] and m[4]["members"]]
+            if not cand:
+                continue
+            name = rng.choice(cand)[0]
+            side = rng.choice([a, b])
+            setattr(side, name, wiring.flipped(getattr(side, name)))
+            out["hist"]["corruption:" + kind] = out["hist"].get("corruption:" + kind, 0) + 1
+            for order in ((a, b), (b, a)):
+                m = Module()
+                out["evaluations"] += 1
+                try:
+                    wiring.connect(m, *order)
+                except wiring.ConnectionError:
+                    continue
+                except Exception as e:
+                    if exc_origin(e) != "repo":
+                        raise
+                    raise V("corruption-wrong-exception:" + kind, exception=type(e).__name__, member=name)
+                raise V("corruption-accepted:" + kind, member=name, user_signature_class=SIG_CLASS[0] is not None)
+            continue
         lb = list(S.flip().flatten(b))
         j = rng.randrange(len(lb))
         path = lb[j][0]
@@ -478,9 +520,16 @@ def check_input_only_leaf(ir, rng, out):
             init2 = init ^ (1 << rng.randrange(w))
         k = 3 if all_out and rng.random() < 0.5 else 2     # (a third party needs S to be all outputs)
 
+        sgn0 = rng.random() < 0.5
+        mixw = rng.randrange(1, 6)
+
         def side(j, ww, ii):
+            from amaranth.hdl import Shape
             mon = In(ww, init=ii)
             members = {"d": Out(S) if j == 0 else In(S), "mon": Out(wiring.Signature({"m": mon})) if nested else mon}
+            # signatures written independently: the same leaf signed on one side and unsigned on the other (equal
+            # widths connect; signedness may differ)
+            members["mix"] = Out(Shape(mixw, sgn0)) if j == 0 else In(Shape(mixw, not sgn0))
             return wiring.Signature(members).create(path=(f"s{j}",))
         objs = [side(0, w, init)] + [side(j, w2 if j == k - 1 else w, init2 if j == k - 1 else init) for j in range(1, k)]
         out["hist"]["input-only-leaf:" + kind] = out["hist"].get("input-only-leaf:" + kind, 0) + 1
@@ -558,6 +607,9 @@ def run_shard(spec):
     for n in range(spec["trees"]):
         ir = gen_sig(rng, rng.randrange(0, spec["depth"]))
         out["extra"]["trees"] += 1
+        SIG_CLASS[0] = user_signature_class() if rng.random() < 0.4 else None
+        if SIG_CLASS[0] is not None:
+            out["hist"]["trees-built-from-a-user-signature-class"] = out["hist"].get("trees-built-from-a-user-signature-class", 0) + 1
         steps = [("structure", lambda: check_structure(ir, out)),
                  ("metadata", lambda: check_metadata(ir, out)),
                  ("connect2", lambda: check_connect(ir, rng, out, 2)),
